@@ -408,3 +408,21 @@ def mon_c18(run, world, f36_out=None):
                 if stt == "RELEASED" and rel_time.get(t) is not None and rel_time[t] <= now and t not in names:
                     bad.append("released task %s (released at %s) is missing from the offer at %s" % (t, rel_time[t], now))
     return bad
+
+
+def mon_c12(run, world):
+    """end-to-end consequence of deadline enforcement: with exact runtimes every task that completes under a planner that
+    enforces deadlines does so by its deadline; a task that was hopeless when it was offered is never started"""
+    bad = []
+    f = world["flags"]
+    if world.get("fuzz") or f.get("runtime_variance", 0) != 0:
+        return bad
+    pol = f["scheduler"]
+    enforcing = (pol in ("ILP", "TetriSched_Gurobi", "TetriSched_CPLEX") and f.get("enforce_deadlines")
+                 and not f.get("release_taskgraphs")) or pol == "Clockwork"
+    if not enforcing:
+        return bad
+    for x in run["final"]:
+        if x[1] == "COMPLETED" and x[3] is not None and x[5] is not None and x[3] > x[5]:
+            bad.append("task %s completed at %s, after its deadline %s, under %s with deadline enforcement" % (x[0], x[3], x[5], pol))
+    return bad
